@@ -34,6 +34,7 @@ ASSUME \A r \in Basis : PrintT(ToJson([k |-> "op", r |-> r, text |-> OpText(QCfg
 PlainOps == { RqA("sas", 1, "SINT", << <<1>>, <<2>>, <<3>> >>), RqA("sas", 3, "SINT", << <<100>> >>),
               Rq("write", 1, "sym", 0, 2, "INT", << <<5, 0>>, <<6, 0>> >>), Rq("write", 2, "sym", 0 - 1, 1, "INT", << <<44, 1>> >>), Rq("write", 3, "cia", 0, 1, "INT", << <<7, 0>> >>) }
 ASSUME \A r \in PlainOps : r.typ = DefaultIntType(r) /\ PrintT(ToJson([k |-> "optext", r |-> r, text |-> PlainText(QCfg, r)]))
+ASSUME \A r \in Basis : \A tx \in AltTexts(QCfg, r) : PrintT(ToJson([k |-> "optext", r |-> r, text |-> tx]))
 \* replies larger than one receive buffer: a 100-element DINT array read many times in one Multiple Service Packet
 BigCfg == [ budget |-> 488,
             tags |-> << [name |-> <<88>>, type |-> "DINT", len |-> 100, scalar |-> FALSE, cia |-> <<2, 1, 1>>],
